@@ -101,8 +101,14 @@ pub fn history(rng: &mut gen::R, c: &Case, tb: &Tablebases) -> Vec<Cmd> {
     let games = rng.gen_range(1..=3);
     for g in 0..games {
         // an earlier "game": searches of X (the position after the key move) and sometimes of M itself
-        let root = if g == games - 1 || rng.gen_bool(0.7) { c.x.clone() } else { c.m.clone() };
-        s.push(Cmd::Position { fen: Some(root.fen()), moves: vec![] });
+        let use_x = g == games - 1 || rng.gen_bool(0.7);
+        let root = if use_x { c.x.clone() } else { c.m.clone() };
+        if use_x && rng.gen_bool(0.4) {
+            // the same position given as GUIs give it: the earlier position plus the move played
+            s.push(Cmd::Position { fen: Some(c.m.fen()), moves: vec![Pos::lan(&c.k)] });
+        } else {
+            s.push(Cmd::Position { fen: Some(root.fen()), moves: vec![] });
+        }
         let depth = rng.gen_range(2..=4);
         match rng.gen_range(0..6) {
             0 => {
